@@ -29,6 +29,7 @@ func genScenario(r *rand.Rand, key string, quick bool) *fullsync.Scenario {
 	sc.Parallel = []int{1, 2, 8}[r.Intn(3)]
 	sc.PipeSize = []int{1, 16, 1024}[r.Intn(3)]
 	sc.PlanStyle = r.Intn(4)
+	sc.Bisync = r.Intn(5) == 0
 	opt := rdbx.GenOptions{Version: ver, NowMs: time.Now().UnixMilli(), IDPrefix: "k" + key[5:] + ":", Avoid: []string{"listpacks4"}}
 	switch r.Intn(4) {
 	case 0:
@@ -111,6 +112,12 @@ func main() {
 			res.Violation("replay-of-valid-snapshot-hangs", "Send did not return within 75 s for a valid snapshot", witness())
 			return
 		}
+		if sc.Bisync && out.Err != nil && contains(out.Err.Error(), "Bad data format") {
+			// bidirectional replay has no native-command fallback for a target that does not know the
+			// value's encoding; it refuses with the target's error (fail-safe, nothing to judge)
+			res.Count("bisync_refused_by_older_target", 1)
+			return
+		}
 		if out.Err != nil {
 			lab := "?"
 			if len(sc.DS) > 0 {
@@ -149,7 +156,11 @@ func main() {
 				if sc.Chunk > 0 && len(sc.Ser[i].ValueBytes) > sc.Chunk {
 					ch = "|chunked"
 				}
-				res.DistinctAdd(k.Enc.Describe() + "|" + path + ch)
+				bs := ""
+				if sc.Bisync {
+					bs = "|bisync"
+				}
+				res.DistinctAdd(k.Enc.Describe() + "|" + path + ch + bs)
 				res.SeenAdd("rdb_type_path", fmt.Sprintf("%s/%s|%s%s", kindName(k), rdbx.TypeName(sc.Ser[i].TypeByte), path, ch))
 			}
 			if r.Intn(50) == 0 {
